@@ -492,7 +492,9 @@ def check(mod, ctx, args):
         n = max(1, int(round(b["n"] * args.scale))) if b["n"] else 0
         b["n_eff"] = n
         for i in range(n):
-            tasks.append(((i + 0.5) / n, b["name"], i))
+            # ("front": a batch of few, long runs is scheduled within the first part of the run, so that
+            # its last members do not leave the pool idle at the end)
+            tasks.append(((i + 0.5) / n * b.get("front", 1.0), b["name"], i))
     tasks.sort()
     items = [((b, i), (b, i)) for _, b, i in tasks]
     deadline = t0 + t_prep + ctx.budget_s if ctx.budget_s else None
